@@ -1,6 +1,7 @@
-"""C07 (clones are faithful, self-contained, independent): bounded stand-in on Netlist/Library/Definition/Instance/Port/Cable/Wire/pin .clone()."""
-from props import _designb
-LEVEL = 'exploration'
+"""C07 (clones are faithful, self-contained, independent): leaf clone contracts proved from the real AST (pyvc suite 'clone':
+Wire.clone, InnerPin.clone, OuterPin.clone) + bounded stand-in on Netlist/Library/Definition/Instance/Port/Cable/Wire/pin .clone()."""
+from props import _designb, _pv
+LEVEL = 'other'
 PID = 'C07'
 RULE = ('distinct = distinct abstract design (hash of the AD); non-trivial = hierarchy depth >= 2, at least one net crossing an '
         'instance-port boundary and instances referencing definitions of at least two libraries')
@@ -10,9 +11,28 @@ def run(rep, tier, seed):
     rep.explanation = 'bounded stand-in only: identity-disjointness, canon equality, Inv, pointer closure, source snapshots, edit independence (4 edit groups x 2 sides), queries on the clone, and the 8 element clones with documented reference-set bookkeeping'
     rep.assumptions = ['Tier B: everything outside the stated bounds is unexplored (DESIGN.md 8.12)',
                        'oracles (canon / elab / occurrence enumeration / Inv) read public attributes only and are calibrated against an AD-level elaborator']
+    expl_b = rep.explanation
+    failed = _pv.run_suite(rep, PID, 'clone', tier)
+    rep.explanation = ('leaf level (P): Wire.clone / InnerPin.clone / OuterPin.clone return a NEW object of the same class that belongs to nothing and is '
+                       'connected to nothing, never raise, leave every existing object exactly as it was (all fields, order included) and preserve Inv, for '
+                       'all heaps satisfying Inv (three-phase protocol _clone(memo) / _clone_rip with the memo as an object-keyed local dictionary, OuterPin '
+                       'keys structural); the compound clones (Port, Cable, Instance, Definition, Library, Netlist: loops over a memo that grows) are decided '
+                       'by the ' + expl_b)
     fails = _designb.run_designs(rep, PID, tier, seed, RULE, extra_bounds={'element_clone_roots_per_kind': '<= 4 libraries/definitions, <= 3 of each other kind per design', 'edit_groups': ['data', 'structure', 'transform(uniquify+flatten)', 'dismantle'], 'name_lookups_per_design': 10})
     _designb.report_failures(rep, PID, fails)
+    hit = set(v['key'] for v in rep.violations)
+    for fn, o in failed:
+        rep.violation(o['name'], 'obligation %s is no longer discharged (%s)%s' % (o['name'], (o.get('detail') or '')[:200],
+                      '; the bounded tier reports a failing input for this property in the same run' if hit else ''),
+                      replay={'kind': 'obligation', 'obligation': o['name'], 'function': fn, 'solver_output': o.get('detail')}, nfi=not hit)
+    rep.trusted = list(getattr(rep, 'trusted', []) or []) + ['pyvc VC generator (DESIGN.md 3), z3/cvc5', 'IR heap model and Inv of specs/ir.py']
+    rep.assumptions += ['the receiver satisfies Inv together with the rest of the heap (proved for API-built netlists by C01/C02)',
+                        'stores to the not yet returned clone are internal (no announcement demanded; the creation hook of the new object is modelled as in C19)']
 
 
 def replay(path):
+    import json
+    d = json.load(open(path)); r = d.get('replay') or {}
+    if r.get('kind') == 'obligation':
+        print('replay file names obligation %s; solver output: %s' % (r.get('obligation'), str(r.get('solver_output'))[:300])); return 0
     return _designb.replay(path, PID)
